@@ -154,6 +154,17 @@ CtxPop == SubSeq(ctx, 1, Len(ctx) - 1)
 HasLayer(l) == \E k \in DOMAIN ctx : ctx[k].layer = l
 LayerIdx(l) == CHOOSE k \in DOMAIN ctx : ctx[k].layer = l /\ \A j \in DOMAIN ctx : ctx[j].layer = l => j <= k
 
+\* ---------------------------------------------------------------- hooks that exclude their element at run time
+\* (P.skips: before_feature / before_rule / before_scenario hooks of these elements call element.skip())
+SkipsAt(name, el) == \E k \in DOMAIN P.skips : P.skips[k].name = name /\ P.skips[k].el = el
+RECURSIVE IsUnder(_,_)
+IsUnder(x, el) == x = el \/ (prog[x].parent # 0 /\ IsUnder(prog[x].parent, el))
+\* skip(): should_skip on the element and everything below it, not yet executed steps become skipped
+SkipFlags(el) == [x \in DOMAIN shouldSkip |-> shouldSkip[x] \/ IsUnder(x, el)]
+SkipSteps(el) == [x \in DOMAIN stepst |-> IF IsUnder(x, el)
+                                          THEN [j \in DOMAIN stepst[x] |-> IF stepst[x][j] \in {"untested", "skipped"} THEN "skipped" ELSE stepst[x][j]]
+                                          ELSE stepst[x]]
+
 \* ======================================================================= run_model
 BeforeAll ==
    /\ Top.fn = "run_model" /\ Top.pc = "before_all"
@@ -228,10 +239,13 @@ CBeforeHook ==
       /\ rt' = RtHook(FALSE)
       /\ evlog' = Append(evlog, HookEv(IF KindName(el) = "feature" THEN "before_feature" ELSE "before_rule", el, "", Raises, 0, FALSE))
       /\ hookFailed' = IF Raises THEN [hookFailed EXCEPT ![el] = TRUE] ELSE hookFailed
+      /\ LET skip == SkipsAt(IF KindName(el) = "feature" THEN "before_feature" ELSE "before_rule", el) IN
+         /\ shouldSkip' = IF skip THEN SkipFlags(el) ELSE shouldSkip
+         /\ stepst' = IF skip THEN SkipSteps(el) ELSE stepst
       /\ LET hf == hookFailed'[el] IN
          stack' = SetTop([Top EXCEPT !.fc = IF hf THEN Top.fc + 1 ELSE Top.fc,
-                                      !.su = hf \/ rt.aborted, !.sr = ~shouldSkip[el], !.pc = "announce"])
-   /\ U(<<inputs, ret, stepst, forced, shouldSkip, ctx, cap>>)
+                                      !.su = hf \/ rt.aborted, !.sr = ~shouldSkip'[el], !.pc = "announce"])
+   /\ U(<<inputs, ret, forced, ctx, cap>>)
 
 CAnnounce ==
    /\ Top.fn = "container" /\ Top.pc = "announce"
@@ -345,10 +359,13 @@ SBeforeHook ==
       /\ rt' = RtHook(FALSE)
       /\ evlog' = Append(evlog, HookEv("before_scenario", el, "", Raises, 0, FALSE))
       /\ hookFailed' = IF Raises THEN [hookFailed EXCEPT ![el] = TRUE] ELSE hookFailed
+      /\ LET skip == SkipsAt("before_scenario", el) IN
+         /\ shouldSkip' = IF skip THEN SkipFlags(el) ELSE shouldSkip
+         /\ stepst' = IF skip THEN SkipSteps(el) ELSE stepst
       /\ LET hf == hookFailed'[el] IN
-         stack' = SetTop([Top EXCEPT !.failed = hf, !.su = hf \/ rt.aborted, !.sr = ~shouldSkip[el],
-                                      !.rs = ~shouldSkip[el] /\ ~cfg.dry, !.pc = "announce"])
-   /\ U(<<inputs, ret, stepst, forced, shouldSkip, ctx, cap>>)
+         stack' = SetTop([Top EXCEPT !.failed = hf, !.su = hf \/ rt.aborted, !.sr = ~shouldSkip'[el],
+                                      !.rs = ~shouldSkip'[el] /\ ~cfg.dry, !.pc = "announce"])
+   /\ U(<<inputs, ret, forced, ctx, cap>>)
 SAnnounce ==    \* formatter.scenario, setup_capture (fresh buffers), formatter.step*
    /\ Top.fn = "scenario" /\ Top.pc = "announce"
    /\ LET el == Top.el
